@@ -22,7 +22,7 @@ From LV Require Import Base.Bytes Base.Sx Model.Obj Model.DocQ Gen.Crypto
   Spec.Crypto.Iso Spec.Crypto.IsoConcrete
   Proofs.CryptoProofs Proofs.CryptoProofsFilter Proofs.CryptoProofsObject Proofs.IsoProofs Proofs.IsoProofsData
   Proofs.CryptoProofsDoc Proofs.IsoProofsObj Proofs.IsoProofsFilter Proofs.IsoProofsAuth Proofs.IsoProofsDoc Proofs.IsoProofsRT
-  Proofs.IsoProofsDoc2 Proofs.IsoProofsPerms Proofs.IsoProofsDoc6 Proofs.IsoProofsExamples Proofs.CryptoProofsAES.
+  Proofs.IsoProofsDoc2 Proofs.IsoProofsPerms Proofs.IsoProofsDoc6 Proofs.IsoProofsDoc7 Proofs.IsoProofsExamples Proofs.CryptoProofsAES.
 Local Open Scope N_scope.
 
 (* ---------------- rung 1: constants and formulations ---------------- *)
@@ -474,6 +474,54 @@ Theorem C06_iso_encrypt_lopdf_decrypt_user_r6 : forall P, (forall m, length (p_m
   DOk (opened_doc d eid (st_of (ip_r6 P rq rnd) (rq_fek rq))) (st_of (ip_r6 P rq rnd) (rq_fek rq)).
 Proof. exact iso_encrypt_lopdf_decrypt_user_r6. Qed.
 
+(* ---- direction lopdf -> standard, revisions 5 and 6 ---- *)
+Theorem C06_read_params_encode_r6 : forall st, st_shape_r6 st -> NoDup (map fst (es_crypt_filters st)) ->
+  read_params (encode st) = Some (ip_of_st6 st).
+Proof. exact read_params_encode6. Qed.
+
+(* try_from(R5 / V5) computes the standard's U, UE (Algorithm 8), O, OE (Algorithm 9) and Perms (Algorithm 10) *)
+Theorem C06_try_from_version_r6 : forall P d v rnd, version_ok6 v ->
+  try_from_version P d v rnd = Ok (st_of_version6 P v rnd).
+Proof. exact try_from_version_eq6. Qed.
+
+Theorem C06_iso_opens_lopdf_r6 : forall P, (forall m, length (p_md5 P m) = 16%nat) -> aes_ok P ->
+  forall st d ivs d1 pw,
+  lst_ok6 st -> max_id_ok d -> dict_get (d_trailer d) K_Encrypt = None ->
+  Forall (fun io => indirect_ok (ip_of_st6 st) (snd io)) (d_objects d) ->
+  doc_encrypt P st d ivs = DOk d1 tt ->
+  open_key (iprims_of P) (ip_of_st6 st) (file_id0 (d_trailer d)) pw = Some (es_key st) ->
+  open_document (iprims_of P) d1 pw =
+  Opened {| d_version := d_version d; d_binary_mark := d_binary_mark d; d_trailer := d_trailer d;
+            d_objects := iso_norm_objs (ip_of_st6 st) (d_objects d); d_max_id := d_max_id d + 1 |} (es_key st).
+Proof. exact iso_opens_lopdf_r6. Qed.
+
+(* the interoperability statement, direction lopdf -> standard, revisions 5 and 6 *)
+Theorem C06_lopdf_encrypt_iso_decrypt_owner_r6 : forall P, (forall m, length (p_md5 P m) = 16%nat) -> aes_ok P ->
+  (forall m, length (p_sha256 P m) = 32%nat) -> (forall m, length (p_sha384 P m) = 48%nat) ->
+  (forall m, length (p_sha512 P m) = 64%nat) ->
+  forall d v rnd ivs st d1,
+  version_ok6 v -> max_id_ok d -> dict_get (d_trailer d) K_Encrypt = None ->
+  Forall (fun io => indirect_ok (ip_of_st6 (st_of_version6 P v rnd)) (snd io)) (d_objects d) ->
+  try_from_version P d v rnd = Ok st -> doc_encrypt P st d ivs = DOk d1 tt ->
+  open_document (iprims_of P) d1 (v_owner v) = Opened (plain_again6 d st) (es_key st).
+Proof. exact lopdf_encrypt_iso_decrypt_owner_r6. Qed.
+
+Theorem C06_lopdf_encrypt_iso_decrypt_user_r6 : forall P, (forall m, length (p_md5 P m) = 16%nat) -> aes_ok P ->
+  (forall m, length (p_sha256 P m) = 32%nat) -> (forall m, length (p_sha384 P m) = 48%nat) ->
+  (forall m, length (p_sha512 P m) = 64%nat) ->
+  forall d v rnd ivs st d1,
+  version_ok6 v -> max_id_ok d -> dict_get (d_trailer d) K_Encrypt = None ->
+  Forall (fun io => indirect_ok (ip_of_st6 (st_of_version6 P v rnd)) (snd io)) (d_objects d) ->
+  try_from_version P d v rnd = Ok st -> doc_encrypt P st d ivs = DOk d1 tt ->
+  alg12 (iprims_of P) (ip_R (ip_of_st6 st)) (ip_O (ip_of_st6 st)) (ip_U (ip_of_st6 st)) (v_user v) = false ->
+  open_document (iprims_of P) d1 (v_user v) = Opened (plain_again6 d st) (es_key st).
+Proof. exact lopdf_encrypt_iso_decrypt_user_r6. Qed.
+
+Theorem C06_example_version_ok_r6 :
+  version_ok6 (EV5 false [(KS, CF_AESV3)] (zeros 32) KS KS (bs "owner") (bs "user") 2052) /\
+  version_ok6 (ER5 true [(KP, CF_Identity); (KS, CF_AESV3)] (zeros 32) KS N_Identity [] (bs "user") 0).
+Proof. exact ex_version_ok6. Qed.
+
 Theorem C06_example_request_ok_r6 : request_ok_r6 ex_rq_v5 /\ doc_ok (rq_core ex_rq_v5) ex_doc (Some (5, 0)).
 Proof. exact ex_request_ok_v5. Qed.
 
@@ -590,6 +638,12 @@ Print Assumptions C06_lopdf_opens_r6.
 Print Assumptions C06_iso_encrypt_lopdf_decrypt_owner_r6.
 Print Assumptions C06_iso_encrypt_lopdf_decrypt_user_r6.
 Print Assumptions C06_example_request_ok_r6.
+Print Assumptions C06_read_params_encode_r6.
+Print Assumptions C06_try_from_version_r6.
+Print Assumptions C06_iso_opens_lopdf_r6.
+Print Assumptions C06_lopdf_encrypt_iso_decrypt_owner_r6.
+Print Assumptions C06_lopdf_encrypt_iso_decrypt_user_r6.
+Print Assumptions C06_example_version_ok_r6.
 Print Assumptions C06_example_matches_r4.
 Print Assumptions C06_example_state_matches.
 Print Assumptions C06_example_iso_encrypt_lopdf_decrypt.
